@@ -59,7 +59,7 @@ REQUIRED = dict(
              'perturb:temperature', 'perturb:abundance', 'perturb:pressure', 'perturb:top-layer', 'perturb:bottom-layer',
              'via-setter', 'pressure:array-with-unordered-derived-levels', 'T-dtype:i', 'T-dtype:f',
              'T:integer-valued-layers', 'shared-planet:earlier-model-rejudged', 'model:evaluated-then-rejudged',
-             'path-method:new', 'path-method:old'])
+             'path-method:new', 'path-method:old', 'moved-in-a-late-digit:planet_mass', 'moved-in-a-late-digit:T'])
 
 AMU = L.R.AMU
 
@@ -416,6 +416,21 @@ def wl_model(ctx, rng):
     n = spec['n']
     bad = {k: list(v.shape) for k, v in d.items() if v.shape[-1] != (n + 1 if k == 'exposed:zb' else n)}
     ctx.check('everything-one-per-layer', not bad, bad=bad, n=n)
+    # parameters are moved in a late digit (a sampler near convergence, a finite-difference step) and the profiles
+    # are initialised again: the structure must follow every change, however small
+    if not spec.get('unordered'):
+        for _ in range(int(rng.integers(1, 3))):
+            names = ['planet_mass', 'planet_radius'] + (['T'] if spec['tkind'] == 'isothermal' else [])
+            nm = names[int(rng.integers(0, len(names)))]
+            new = float(m[nm]) * (1.0 + float(rng.choice([-1, 1])) * float(10 ** rng.uniform(-9, -5.3)))
+            m[nm] = new
+            if nm.startswith('planet_'):
+                L.redeclare(m.planet, **{nm: new})
+            before = ctx.monitors['contract:model.altitude']
+            m.initialize_profiles()
+            ctx.check('contract-fired', ctx.monitors['contract:model.altitude'] > before)
+            ctx.observe('moved-in-a-late-digit:' + nm)
+        d = collect(ctx, m)
     # the spectrum is computed (either path-length method): what the model exposes afterwards is judged again -- the
     # radiative transfer may not have written into the vertical structure
     if not spec.get('unordered') and n >= 2:
